@@ -4,8 +4,6 @@ From Coq Require Import List Bool Arith Lia.
 From KV Require Import Model.Gate.
 Import ListNotations.
 
-Definition inst_done {A} (h : A) (x : nat) : Prop := True.
-
 Lemma phase_eqb_eq : forall a b, phase_eqb a b = true <-> a = b.
 Proof. intros [] []; simpl; split; intro H; try discriminate; auto. Qed.
 
@@ -165,236 +163,107 @@ Proof.
   split; [eapply is_on_false_otog; eauto | exact Hp].
 Qed.
 
-(* ---------- the invariant of every reachable state (any worker limit) ---------- *)
-Definition pre_index (p : ophase) : Prop := p = PToggled \/ p = PQueued \/ p = PRunning.
-Definition in_first (p : ophase) : Prop := p = PChecked \/ p = PToggled.
-
-Record GInv (s : gst) : Prop := mkGInv {
-  i_blk : blocker s = true -> 0 < nblock s;
-  i_open : is_on s = true -> 0 < nblock s -> opened s = true;
-  i_nb_w : forall r, won (wst s r) = true -> 0 < nblock s;
-  i_nb_o : forall o, ph (ost s o) <> PNew -> won (wst s (kind (ost s o))) = true;
-  i_dis : forall r, won (wst s r) = true -> armed (wst s r) = false -> opened s = true;
-  i_ung : forall o, ph (ost s o) <> PNew -> gated (ost s o) = false -> opened s = true;
-  i_rt : forall r, won (wst s r) = true -> windexed (wst s r) = true -> listed s r = false -> In r (rtog s);
-  i_early : forall o, ph (ost s o) <> PNew -> early (ost s o) = true -> mk (ost s o) = true;
-  i_ot : forall o, mk (ost s o) = true -> pre_index (ph (ost s o)) -> In o (otog s);
-  i_busy : forall r o, busy (wst s r) = Some o -> in_first (ph (ost s o)) /\ kind (ost s o) = r;
-  i_chk : forall o, in_first (ph (ost s o)) -> busy (wst s (kind (ost s o))) = Some o;
-  i_chk_e : forall o, ph (ost s o) = PChecked -> early (ost s o) = true ->
-                      listed s (kind (ost s o)) = false /\ windexed (wst s (kind (ost s o))) = true;
-  i_k1 : forall o, In o (otog s) -> pre_index (ph (ost s o));
-  i_k3 : forall r, In r (rtog s) -> won (wst s r) = true;
-  i_k4 : forall r, nrun s r + List.length (pend s r) <= nseen s r;
-  i_k5 : forall r o, In o (pend s r) -> ph (ost s o) = PQueued /\ kind (ost s o) = r;
-  i_k5' : forall o, ph (ost s o) = PQueued -> In o (pend s (kind (ost s o)));
-  i_kn : NoDup (kinds s) /\ forall r, won (wst s r) = true <-> In r (kinds s)
+(* ---------- the invariant of every reachable state, any worker limit: the resource-kind half of the gate ---------- *)
+Record KInv (s : gst) : Prop := mkKInv {
+  k_blk : blocker s = true -> 0 < nblock s;
+  k_nbw : forall r, won (wst s r) = true -> 0 < nblock s;
+  k_open : is_on s = true -> 0 < nblock s -> opened s = true;
+  k_dis : forall r, won (wst s r) = true -> armed (wst s r) = false -> opened s = true;
+  k_rt : forall r, won (wst s r) = true -> windexed (wst s r) = true -> listed s r = false -> In r (rtog s);
+  k_k3 : forall r, In r (rtog s) -> won (wst s r) = true
 }.
 
-Lemma ginv_init : GInv ginit.
-Proof.
-  constructor; simpl; try discriminate; try (intros; discriminate); try (intros; contradiction).
-  all: try (intros; exfalso; auto; fail).
-  all: try (intros o H; try destruct H as [H|[H|H]]; try destruct H as [H|H]; try discriminate; try (exfalso; apply H; reflexivity); fail).
-  - intros _ H; lia.
-  - intro r; lia.
-  - split; [constructor | intro r; split; [discriminate | tauto]].
-Qed.
+Lemma kinv_init : KInv ginit.
+Proof. constructor; simpl; try discriminate; try (intros; discriminate); try (intros; contradiction). intros _ H; lia. Qed.
 
 Ltac enter I H := destruct I; step_cases H; unfold touch, set_o, set_w; simpl.
 Ltac lists :=
   repeat match goal with
   | H : In _ (remove_nat _ _) |- _ => apply in_remove_nat in H; destruct H
   | H : In _ (_ :: _) |- _ => destruct H
-  | H : In _ (_ ++ [_]) |- _ => apply in_app_iff in H; destruct H as [H|[H|[]]]
   | H : In _ [] |- _ => destruct H
   end.
-Ltac light := intros; unfold pre_index, in_first in *; upd_cases; simpl in *; lists; subst;
+Ltac light := intros; upd_cases; simpl in *; lists; subst;
   try (apply orb_true_iff; left);
   try tauto; try congruence; try lia; eauto 3.
 
-(* instantiate every invariant clause at every nat in sight, then decide propositionally *)
-Ltac inst1 H x :=
-  lazymatch type of H with
-  | forall _ : nat, _ => let H' := fresh "Hi" in pose proof (H x) as H'
-  | _ => idtac
-  end.
-Ltac inst_all x :=
-  repeat match goal with
-  | H : forall _ : nat, _ |- _ =>
-      lazymatch goal with
-      | _ : inst_done H x |- _ => fail
-      | _ => let H' := fresh "Hi" in pose proof (H x) as H'; assert (inst_done H x) by exact I
-      end
-  end.
-Ltac heavy :=
-  intros; unfold pre_index, in_first in *; upd_cases; simpl in *; lists; subst;
-  try (apply orb_true_iff; left);
-  repeat match goal with x : nat |- _ => progress (inst_all x) end;
-  repeat match goal with
-  | H : forall _ : nat, _ |- _ => clear H
-  | H : inst_done _ _ |- _ => clear H
-  end;
-  try tauto; try congruence; try lia; try solve [intuition (try congruence; try lia; eauto 2)].
+Lemma is_on_false_rtog : forall s r, In r (rtog s) -> is_on s = false.
+Proof. intros s r H; unfold is_on. destruct (rtog s); [contradiction|]. rewrite andb_false_r; reflexivity. Qed.
 
-Lemma st_open : forall lim s l s', GInv s -> gstep lim s l = Some s' ->
-  is_on s' = true -> 0 < nblock s' -> opened s' = true.
+Lemma kinv_step : forall lim s l s', KInv s -> gstep lim s l = Some s' -> KInv s'.
 Proof.
-  intros lim s l s' _ H. unfold gstep in H. destruct (step0 lim s l) as [x|]; [|discriminate].
-  simpl in H; injection H as <-. unfold touch; simpl. intros Hon Hn.
-  assert (E : is_on x = true) by exact Hon. rewrite E. apply Nat.ltb_lt in Hn. rewrite Hn. apply orb_true_r.
+  intros lim s l s' I H.
+  assert (Hopen : is_on s' = true -> 0 < nblock s' -> opened s' = true).
+  { clear I. unfold gstep in H. destruct (step0 lim s l) as [x|]; [|discriminate].
+    simpl in H; injection H as <-. unfold touch; simpl. intros Hon Hn.
+    assert (E : is_on x = true) by exact Hon. rewrite E. apply Nat.ltb_lt in Hn. rewrite Hn. apply orb_true_r. }
+  constructor; [| | exact Hopen | | |]; clear Hopen.
+  - enter I H. all: try solve [light].
+  - enter I H. all: try solve [light].
+  - enter I H. all: try solve [light].
+    intros r0 Hw Ha; upd_cases; simpl in *.
+    + apply negb_false_iff in Ha. apply orb_true_iff; left. apply k_open0; [exact Ha | eapply k_nbw0; eauto].
+    + apply orb_true_iff; left; eauto.
+  - enter I H. all: try solve [light].
+    + intros r0; unfold upd; destruct (Nat.eqb_spec r0 r) as [->|Hne]; simpl; intros Hw Hx Hl.
+      * subst indexed. left; reflexivity.
+      * destruct indexed; [right|]; eauto.
+    + intros r0; unfold upd; destruct (Nat.eqb_spec r0 r) as [->|Hne]; simpl; intros Hw Hx Hl; [discriminate|].
+      apply in_remove_nat; split; eauto.
+  - enter I H. all: try solve [light].
+    intros r0; unfold upd; destruct (Nat.eqb_spec r0 r) as [->|Hne]; simpl; [reflexivity|].
+    destruct indexed; [intros [->|Hin]; [contradiction|] | intro Hin]; eauto.
 Qed.
 
-Lemma st_blk : forall lim s l s', GInv s -> gstep lim s l = Some s' ->
-  blocker s' = true -> 0 < nblock s'.
+Lemma kinv_run : forall lim tr s s', KInv s -> grun lim s tr = Some s' -> KInv s'.
 Proof.
-  intros lim s l s' I H. enter I H.
-  all: try solve [timeout 20 light].
-  all: try solve [timeout 30 heavy].
-  all: match goal with |- _ => idtac "LEFT blk" end.
-Abort.
+  intros lim tr; induction tr as [|l tr IH]; intros s s' HS H; simpl in H.
+  - injection H as <-; exact HS.
+  - destruct (gstep lim s l) as [s1|] eqn:E; [|discriminate]. eapply IH; [eapply kinv_step; eauto | exact H].
+Qed.
 
-Lemma st_nb_w : forall lim s l s', GInv s -> gstep lim s l = Some s' ->
-  forall r, won (wst s' r) = true -> 0 < nblock s'.
+(* When the processing of a gated object reaches process_resource_causes (handlers, daemons, timers may start), the
+   orchestration blocker is gone and every indexed resource kind created so far has been listed: for EVERY trace
+   and every worker limit.  A watcher gives up the gate (ungated workers) only after the set was open once. *)
+Theorem gate_kinds_safety : forall lim tr s o s',
+  grun lim ginit tr = Some s -> gstep lim s (Pass o) = Some s' ->
+  gated (ost s o) = true ->
+  blocker s = false /\ (forall r, won (wst s r) = true -> windexed (wst s r) = true -> listed s r = true) /\
+  (forall o', ~ In o' (otog s)).
 Proof.
-  intros lim s l s' I H. enter I H.
-  all: try solve [timeout 20 light].
-  all: try solve [timeout 30 heavy].
-  all: match goal with |- _ => idtac "LEFT nb_w" end.
-Abort.
+  intros lim tr s o s' Hr Hs Hg. pose proof (kinv_run lim tr ginit s kinv_init Hr) as I. destruct I.
+  unfold gstep in Hs. destruct (step0 lim s (Pass o)) eqn:E; [|discriminate]. simpl in E.
+  destruct (phase_eqb (ph (ost s o)) PWaiting && (negb (gated (ost s o)) || is_on s)) eqn:G; [|discriminate].
+  apply andb_true_iff in G; destruct G as [_ G]. rewrite Hg in G; simpl in G.
+  split; [|split].
+  - unfold is_on in G. destruct (blocker s); [discriminate | reflexivity].
+  - intros r Hw Hx. destruct (listed s r) eqn:El; [reflexivity|].
+    rewrite (is_on_false_rtog s r (k_rt0 r Hw Hx El)) in G; discriminate.
+  - intros o' Hin. rewrite (is_on_false_otog s o' Hin) in G; discriminate.
+Qed.
 
-Lemma st_nb_o : forall lim s l s', GInv s -> gstep lim s l = Some s' ->
-  forall o, ph (ost s' o) <> PNew -> won (wst s' (kind (ost s' o))) = true.
-Proof.
-  intros lim s l s' I H. enter I H.
-  all: try solve [timeout 20 light].
-  all: try solve [timeout 30 heavy].
-  all: match goal with |- _ => idtac "LEFT nb_o" end.
-Abort.
+Theorem gate_disarm_after_open : forall lim tr s r,
+  grun lim ginit tr = Some s -> won (wst s r) = true -> armed (wst s r) = false -> opened s = true.
+Proof. intros lim tr s r Hr. destruct (kinv_run lim tr ginit s kinv_init Hr). eauto. Qed.
 
-Lemma st_dis : forall lim s l s', GInv s -> gstep lim s l = Some s' ->
-  forall r, won (wst s' r) = true -> armed (wst s' r) = false -> opened s' = true.
+(* an indexed kind keeps its toggle in the set until its first LISTED: the set cannot be open before *)
+Theorem gate_unlisted_blocks : forall lim tr s r,
+  grun lim ginit tr = Some s -> won (wst s r) = true -> windexed (wst s r) = true -> listed s r = false ->
+  is_on s = false.
 Proof.
-  intros lim s l s' I H. enter I H.
-  all: try solve [timeout 20 light].
-  all: try solve [timeout 30 heavy].
-  all: match goal with |- _ => idtac "LEFT dis" end.
-Abort.
+  intros lim tr s r Hr Hw Hx Hl. destruct (kinv_run lim tr ginit s kinv_init Hr).
+  eapply is_on_false_rtog; eauto.
+Qed.
 
-Lemma st_ung : forall lim s l s', GInv s -> gstep lim s l = Some s' ->
-  forall o, ph (ost s' o) <> PNew -> gated (ost s' o) = false -> opened s' = true.
-Proof.
-  intros lim s l s' I H. enter I H.
-  all: try solve [timeout 20 light].
-  all: try solve [timeout 30 heavy].
-  all: match goal with |- _ => idtac "LEFT ung" end.
-Abort.
-
-Lemma st_rt : forall lim s l s', GInv s -> gstep lim s l = Some s' ->
-  forall r, won (wst s' r) = true -> windexed (wst s' r) = true -> listed s' r = false -> In r (rtog s').
-Proof.
-  intros lim s l s' I H. enter I H.
-  all: try solve [timeout 20 light].
-  all: try solve [timeout 30 heavy].
-  all: match goal with |- _ => idtac "LEFT rt" end.
-Abort.
-
-Lemma st_early : forall lim s l s', GInv s -> gstep lim s l = Some s' ->
-  forall o, ph (ost s' o) <> PNew -> early (ost s' o) = true -> mk (ost s' o) = true.
-Proof.
-  intros lim s l s' I H. enter I H.
-  all: try solve [timeout 20 light].
-  all: try solve [timeout 30 heavy].
-  all: match goal with |- _ => idtac "LEFT early" end.
-Abort.
-
-Lemma st_ot : forall lim s l s', GInv s -> gstep lim s l = Some s' ->
-  forall o, mk (ost s' o) = true -> pre_index (ph (ost s' o)) -> In o (otog s').
-Proof.
-  intros lim s l s' I H. enter I H.
-  all: try solve [timeout 20 light].
-  all: try solve [timeout 30 heavy].
-  all: match goal with |- _ => idtac "LEFT ot" end.
-Abort.
-
-Lemma st_busy : forall lim s l s', GInv s -> gstep lim s l = Some s' ->
-  forall r o, busy (wst s' r) = Some o -> in_first (ph (ost s' o)) /\ kind (ost s' o) = r.
-Proof.
-  intros lim s l s' I H. enter I H.
-  all: try solve [timeout 20 light].
-  all: try solve [timeout 30 heavy].
-  all: match goal with |- _ => idtac "LEFT busy" end.
-Abort.
-
-Lemma st_chk : forall lim s l s', GInv s -> gstep lim s l = Some s' ->
-  forall o, in_first (ph (ost s' o)) -> busy (wst s' (kind (ost s' o))) = Some o.
-Proof.
-  intros lim s l s' I H. enter I H.
-  all: try solve [timeout 20 light].
-  all: try solve [timeout 30 heavy].
-  all: match goal with |- _ => idtac "LEFT chk" end.
-Abort.
-
-Lemma st_chk_e : forall lim s l s', GInv s -> gstep lim s l = Some s' ->
-  forall o, ph (ost s' o) = PChecked -> early (ost s' o) = true -> listed s' (kind (ost s' o)) = false /\ windexed (wst s' (kind (ost s' o))) = true.
-Proof.
-  intros lim s l s' I H. enter I H.
-  all: try solve [timeout 20 light].
-  all: try solve [timeout 30 heavy].
-  all: match goal with |- _ => idtac "LEFT chk_e" end.
-Abort.
-
-Lemma st_k1 : forall lim s l s', GInv s -> gstep lim s l = Some s' ->
-  forall o, In o (otog s') -> pre_index (ph (ost s' o)).
-Proof.
-  intros lim s l s' I H. enter I H.
-  all: try solve [timeout 20 light].
-  all: try solve [timeout 30 heavy].
-  all: match goal with |- _ => idtac "LEFT k1" end.
-Abort.
-
-Lemma st_k3 : forall lim s l s', GInv s -> gstep lim s l = Some s' ->
-  forall r, In r (rtog s') -> won (wst s' r) = true.
-Proof.
-  intros lim s l s' I H. enter I H.
-  all: try solve [timeout 20 light].
-  all: try solve [timeout 30 heavy].
-  all: match goal with |- _ => idtac "LEFT k3" end.
-Abort.
-
-Lemma st_k4 : forall lim s l s', GInv s -> gstep lim s l = Some s' ->
-  forall r, nrun s' r + List.length (pend s' r) <= nseen s' r.
-Proof.
-  intros lim s l s' I H. enter I H.
-  all: try solve [timeout 20 light].
-  all: try solve [timeout 30 heavy].
-  all: match goal with |- _ => idtac "LEFT k4" end.
-Abort.
-
-Lemma st_k5 : forall lim s l s', GInv s -> gstep lim s l = Some s' ->
-  forall r o, In o (pend s' r) -> ph (ost s' o) = PQueued /\ kind (ost s' o) = r.
-Proof.
-  intros lim s l s' I H. enter I H.
-  all: try solve [timeout 20 light].
-  all: try solve [timeout 30 heavy].
-  all: match goal with |- _ => idtac "LEFT k5" end.
-Abort.
-
-Lemma st_k5q : forall lim s l s', GInv s -> gstep lim s l = Some s' ->
-  forall o, ph (ost s' o) = PQueued -> In o (pend s' (kind (ost s' o))).
-Proof.
-  intros lim s l s' I H. enter I H.
-  all: try solve [timeout 20 light].
-  all: try solve [timeout 30 heavy].
-  all: match goal with |- _ => idtac "LEFT k5q" end.
-Abort.
-
-Lemma st_kn : forall lim s l s', GInv s -> gstep lim s l = Some s' ->
-  NoDup (kinds s') /\ forall r, won (wst s' r) = true <-> In r (kinds s').
-Proof.
-  intros lim s l s' I H. enter I H.
-  all: try solve [timeout 20 light].
-  all: try solve [timeout 30 heavy].
-  all: match goal with |- _ => idtac "LEFT kn" end.
-Abort.
+(* with enough slots (or no limit) the very same arrivals open the gate: the recorded traces, replayed *)
+Definition f11_trace_tail : list label := [Start 2; Indexed 2; Pass 2; Pass 1; Pass 0].
+Example gate_opens_with_three_slots :
+  exists s, grun (Some 3) ginit (f11_trace ++ f11_trace_tail) = Some s /\ is_on s = true /\ passed_count s [0; 1; 2] = 3.
+Proof. eexists; split; [vm_compute; reflexivity | split; vm_compute; reflexivity]. Qed.
+Example gate_opens_without_limit :
+  exists s, grun None ginit (f11_trace ++ f11_trace_tail) = Some s /\ is_on s = true /\ passed_count s [0; 1; 2] = 3.
+Proof. eexists; split; [vm_compute; reflexivity | split; vm_compute; reflexivity]. Qed.
+Example gate_start_refused_with_two_slots :
+  exists s, grun (Some 2) ginit f11_trace = Some s /\ gstep (Some 2) s (Start 2) = None /\ gstep (Some 3) s (Start 2) <> None.
+Proof. eexists; split; [vm_compute; reflexivity | split; vm_compute; [reflexivity | discriminate]]. Qed.
 
